@@ -25,6 +25,7 @@ Theorems (statements readable on their own):
 -/
 import LolHtml.Model.FullCtl
 import LolHtml.Lemmas.FullObs
+import LolHtml.Lemmas.InvDisp
 import LolHtml.Thm.C01
 import LolHtml.Thm.C11
 import LolHtml.Thm.C12
@@ -498,6 +499,48 @@ theorem Full_endTagHandler_faithful (src : Range) (subs : List (HId × Nat)) (h 
   unfold runEndTagHandler EndTagHandler.run
   exact key _ _ _ _
 
+
+
+/-! ## Panic sites -/
+
+/-- **Full_vec_loops_never_fail.** In every state of the real controller the three `HandlerVec` loops
+succeed: `do_for_each_active_and_deactivate` on the element handlers (start-tag token) and
+`do_for_each_active_and_remove_tail` on the end-tag handlers (end-tag token) and on the `end` handlers
+(document end). I.e. the checked subtractions of the vector totals (handlers_dispatcher.rs:105,123) and
+`debug_assert_eq!(self.user_count, 0)` (:128) cannot fire. -/
+theorem Full_vec_loops_never_fail (cfg : Cfg) (s : FullSt cfg) :
+    (∃ r, s.1.disp.element.doForEachActiveAndDeactivate = .ok r) ∧
+    (∃ r, s.1.disp.endTag.doForEachActiveAndRemoveTail = .ok r) ∧
+    (∃ r, s.1.disp.end_.doForEachActiveAndRemoveTail = .ok r) :=
+  ⟨deactivate_ok s.2.wf.element, removeTail_ok s.2.wf.endTag, removeTail_ok s.2.wf.end_⟩
+
+/-- consequence: `handle_end` of the real controller never reports a panic-class error from the
+dispatcher itself (only a fault inherited from `handle_end_tag`, or a failing closure) -/
+theorem Full_handleEnd_clean (cfg : Cfg) (s : FullSt cfg) (hf : s.1.fault = none) (e : Err)
+    (he : ((fullCtl cfg).handleEnd s).2.2 = some e) : e = .handler := by
+  obtain ⟨r, hr⟩ := removeTail_ok s.2.wf.end_
+  have he' : (handleEnd cfg s.1).2.2 = some e := he
+  unfold handleEnd at he'
+  simp only [hf, hr] at he'
+  split at he'
+  · simpa using he'.symm
+  · simp at he'
+
+/-- **Full statement** (NOT proved): the real controller never returns a panic / internal-class error
+(`CtlClean`, the hypothesis of C15's theorems). Proved parts: `Full_vec_loops_never_fail`,
+`Full_handleEnd_clean`. Missing: that the VM's explicit failure branches (`typedCounterMissing`,
+`instrIndex`, `openNameCountUnderflow`), the dispatcher's locator / match-id / refcount branches
+(`badLocator`, `badMatchId`, `itemUnderflow`, `removedUnderflow`) and the glue's own consistency
+checks (descs parallel to the VM stack, payload present, slices in range) are unreachable — this needs
+the refcount invariant of pkg scope (C05_refcount) and the stack / program invariants of pkg selvm
+transported to `St`, and C15's lexeme-range invariant for the slices. Lane `full`: never observed. -/
+def Full_clean_statement : Prop := ∀ cfg : Cfg, CtlClean (fullCtl cfg)
+
+/-- **Full statement** (NOT proved in general; `Full_unhash_gen` proves it for every declared tag): the
+name bytes handed to the selector VM for a hashed `LocalName` are the lower-cased tag name. -/
+def Full_unhash_statement : Prop :=
+  ∀ (n : Bytes) (c : UInt8) (rest : Bytes), n = c :: rest → isAsciiAlpha c = true →
+    NameHash.ofBytes n ≠ emptyHash → unhash (NameHash.ofBytes n) = asciiLowerBytes n
 
 /-! ## Instantiation at the code's current tables, non-vacuity (kernel-evaluated runs of the whole model) -/
 
